@@ -25,6 +25,7 @@ LEVEL = "model_checking"
 os.environ.setdefault("JAVA_TOOL_OPTIONS", "-XX:TieredStopAtLevel=1 -XX:ParallelGCThreads=2")
 
 TRACE = ("Trace_Encrypt", "Trace_Encrypt.cfg")
+LIMIT = {"Limit": "100"}     # replaced by the constant of the code under test (encrypt.SmallMetaCountLimit)
 
 
 def is_reset(e):
@@ -37,7 +38,9 @@ def validate(ctx, tracefile, evs=None, overrides=None):
         evs = vlib.read_ndjson(tracefile)
     if not evs:
         return [], evs
-    r = ctx.tlc_trace(TRACE[0], TRACE[1], tracefile, timeout=1500, overrides=overrides)
+    ov = dict(LIMIT)
+    ov.update(overrides or {})
+    r = ctx.tlc_trace(TRACE[0], TRACE[1], tracefile, timeout=1500, overrides=ov)
     if not r["accepted"]:
         raise vlib.MachineryError("Trace_Encrypt: the dead chain did not consume %s: %s" % (tracefile, r["out"][-2000:]))
     hw = set(int(x) for x in re.findall(r'<<"HW", (\d+)>>', r["out"]))
@@ -201,6 +204,13 @@ def negative_samples(ctx, evs):
 def run(ctx, replay):
     drv = ctx.build("c11")
     quick = ctx.quick()
+    # the threshold is a policy constant of the code, not part of the property: the model runs with the code's value
+    rc, so, se = ctx.run([drv, "-limit"], timeout=60)
+    LIMIT["Limit"] = re.search(r"limit=(\d+)", so).group(1)
+    if not 20 <= int(LIMIT["Limit"]) <= 150:
+        raise vlib.MachineryError("SmallMetaCountLimit = %s: the history lengths of EncryptGen (105..320) no longer cross the compaction "
+                                  "threshold twice; adapt EncryptGen.tla" % LIMIT["Limit"])
+    ctx._cfg(TRACE[1], dict(LIMIT))
     if replay:
         rp = json.load(open(replay))
         if "scenario" not in rp:
@@ -230,7 +240,7 @@ def run(ctx, replay):
                    ("Encrypt", "Encrypt_tamper.cfg", {"Plain": "{p1, p2, p3, p4}", "MaxId": "9"}, None)]
     for m, c, ov, _ in s_jobs:
         ctx._cfg(c, ov)
-    ctx._cfg(TRACE[1], {"Deviations": '{"MetaShapedBlobAccepted"}'})
+    ctx._cfg(TRACE[1], dict(LIMIT, Deviations='{"MetaShapedBlobAccepted"}'))
     nshards = 10 if quick else 14
     order = sorted(scns, key=cost, reverse=True)
     shards = [[] for _ in range(nshards)]
